@@ -128,3 +128,14 @@ Section C02System.
   Qed.
 End C02System.
 Print Assumptions c02_system_rows.
+
+(* which text is returned for a numerically solved variable (rule REGENERATED from the last loop of _analysis on every
+   run): the user's own right-hand side when its preservation was requested - requests being validated against the
+   first-order variables - and the computed expression (which [c02_numeric_update_is_rhs] shows to mean the same)
+   otherwise *)
+From OdeVerif Require Import Gen.PreserveGen.
+Theorem c02_preserved_or_computed : forall (T : Type) (requested : bool) (computed user_text : T),
+  returned_update T false requested computed user_text = (if requested then user_text else computed)
+  /\ requests_validated_against_first_order_variables = true.
+Proof. intros T [|] computed user_text; split; reflexivity. Qed.
+Print Assumptions c02_preserved_or_computed.
